@@ -177,6 +177,8 @@ def ecdh(vc):
         vc.tick()
         if EM.on_curve((px % p, py % p), a, b, p) and px < p and py < p:
             continue
+        if max(px, py) >= 256 ** ((p.bit_length() + 7) // 8):
+            continue            # not encodable in the fixed width (crafted encodable cases: C19 from_string family)
         raw = px.to_bytes((p.bit_length() + 7) // 8 + 1, "big")[-((p.bit_length() + 7) // 8):] + \
             py.to_bytes((p.bit_length() + 7) // 8 + 1, "big")[-((p.bit_length() + 7) // 8):]
         try:
@@ -186,9 +188,39 @@ def ecdh(vc):
             pass
     vc.prove("invalid-public-points-rejected", not rej, repr(rej))
     other = C.NIST192p if curve is not C.NIST192p else C.NIST224p
+    # genuine point OBJECTS of another curve (same field size where the shipped set has one) handed to the object-level loaders
+    E = vc.module("register_crypto_plugin.ecdsa.ecdsa")
+    same_size = [c for c in (C.NIST256p, C.SECP256k1, C.BRAINPOOLP256r1, C.NIST192p, C.BRAINPOOLP192r1, C.NIST384p,
+                             C.BRAINPOOLP384r1, C.NIST224p, C.BRAINPOOLP224r1)
+                 if c is not curve and c.curve.p().bit_length() == p.bit_length()] or [other]
+    foreign_acc = []
+    for oc in same_size:
+        q = oc.generator * 5
+        z = 7
+        scaled = EL.PointJacobi(oc.curve, q.x() * z * z % oc.curve.p(), q.y() * z ** 3 % oc.curve.p(), z)
+        for label, obj in (("jacobi-z=1", EL.PointJacobi(oc.curve, q.x(), q.y(), 1)), ("jacobi-z=7", scaled), ("affine", q.to_affine())):
+            vc.tick()
+            for how, load in (("from_public_point", lambda o: K.VerifyingKey.from_public_point(o, curve)),
+                              ("Public_key", lambda o: E.Public_key(curve.generator, o))):
+                try:
+                    load(obj)
+                    foreign_acc.append((oc.name, label, how))
+                except (ERR.MalformedPointError, E.InvalidPointError):
+                    pass
+    vc.prove("point-objects-of-another-curve-rejected-as-public-keys", not foreign_acc, repr(foreign_acc[:4]))
     try:
         H.ECDH(curve, K.SigningKey.from_secret_exponent(5, curve),
                K.SigningKey.from_secret_exponent(7, other).verifying_key).generate_sharedsecret()
         vc.prove("point-on-another-curve-rejected", False)
     except (H.InvalidCurveError, ERR.MalformedPointError, ValueError, AssertionError):
         vc.prove("point-on-another-curve-rejected", True)
+
+
+# "points that are off the curve, out of range or on another curve are rejected when loaded as public keys": the loaders'
+# contracts (proved under C19) are obligations here too - in particular the test is against the curve of the KEY, whatever
+# curve the point object handed in carries
+from pyvc.harness import reuse as _reuse
+from contracts import C19 as _C19x  # noqa: E402,F401
+_reuse("C19/Public_key.point-validation", "C17/Public_key.accepted<=>in-range-and-on-the-key's-curve")
+_reuse("C19/VerifyingKey.from_public_point.validates-against-the-key's-curve", "C17/from_public_point.validates-against-the-key's-curve")
+_reuse("C19/VerifyingKey.from_string.decoded-point-reaches-validation-unchanged", "C17/from_string.decoded-point-reaches-validation-unchanged")
